@@ -51,6 +51,8 @@ Clauses(r) ==
             <<"ConditionalCdfMatches", r.sampled => DKW(r.cdf4, r.ncdf)>>,
             <<"ConditionalIcdfMatches", r.sampled => DKW(r.icdf4, r.nicdf)>>,
             <<"IntegerInputSameAsFloat", r.intsame>> >>
+    [] r.kind = "margmc" ->
+         << <<"MarginalQuantile", \A i \in 1..Len(r.d0) : DKW(r.d0[i], r.n0)>> >>
     [] r.kind = "iform" ->
          << <<"PointCount", Len(r.d0) = r.npoints /\ Len(r.d1) = r.npoints>>,
             <<"MarginalQuantile", \A i \in 1..Len(r.d0) : DKW(r.d0[i], r.n0)>>,
